@@ -80,11 +80,10 @@ Definition gm_tok_eqb (g : gm) (t : ftok) : bool := sf_tok_eqb (fdiv (gm_sum g) 
 Definition two53 : Z := 9007199254740992.
 Definition two31 : Z := 2147483648.
 
-(* clause 27, from the definition: for the distinct non-negative ids in increasing order *)
+(* clause 27, from the definition: the observed floats are the float64 quotients sum / count of
+   gmean_ref col sc -- by C07_checker_sound the only list of (sum, count) pairs satisfying GMean_Spec *)
 Definition gmean_spec_b (col sc : list Z) (o : list ftok) : bool :=
-  let ids := np_unique (filter (fun v => 0 <=? v) sc) in
-  all2b (fun c t => let mem := members sc col c in
-                       sf_tok_eqb (fdiv (zsum mem) (Z.of_nat (length mem))) t) ids o.
+  all2b gm_tok_eqb (gmean_ref col sc) o.
 
 (* judge one observation: r = Some observed value | None = the implementation raised / timed out *)
 Definition judge {R} (guard : bool) (m : option R) (eqb : R -> R -> bool) (o : option R)
